@@ -79,4 +79,16 @@ theorem statsCount_eq_model (s c : Nat) (hs : 1 ≤ s) :
   have : ((s - 1 : Nat) : Int) = (s : Int) - 1 := by omega
   rw [this]
 
+/-- the uint64 masks and the shard / minishard numbers as written in the source (`~`, `>>`, `<<`, `&` with NumPy's
+    64-bit semantics, i.e. the `Routing` primitives) are the model's -/
+theorem routing_eq_model (m s p id : Nat) :
+    Src.minishardMask (minishard_bits := m) = Routing.minishardMask m ∧
+    Src.preshiftMask (preshift_bits := p) = Routing.preshiftMask p ∧
+    Src.shardMask (minishard_bits := m) (shard_bits := s) (minishard_mask := Routing.minishardMask m) = Routing.shardMask m s ∧
+    Src.shardKey (shard_mask := Routing.shardMask m s) (hash_cmc := Routing.hash p id) (minishard_bits := m)
+      = Routing.shardKey m s p id ∧
+    Src.minishardKey (minishard_mask := Routing.minishardMask m) (hash_cmc := Routing.hash p id)
+      = Routing.minishardKey m p id :=
+  ⟨rfl, rfl, rfl, rfl, rfl⟩
+
 end NgVerif.Source
